@@ -294,13 +294,9 @@ struct InputReader {
     input: brush_core::openfiles::OpenFile,
     /// Optional deadline for timeout.
     deadline: Option<Instant>,
-    /// Single-byte read buffer.
-    ///
-    /// TODO(utf-8): This only handles ASCII correctly. Multi-byte UTF-8 characters
-    /// will be read as separate bytes and incorrectly interpreted. To fix this,
-    /// we would need to buffer up to 4 bytes and decode incrementally using
-    /// `std::str::from_utf8`. Note that bash's `-n` counts bytes, not Unicode
-    /// codepoints, so the fix needs to preserve that behavior.
+    /// Single-byte read buffer. Input is read one byte at a time (so that nothing beyond the
+    /// delimiter is consumed); the bytes of a multi-byte UTF-8 character are collected by
+    /// `read_event` and decoded together.
     buffer: [u8; 1],
     /// Terminal mode guard - kept alive for RAII cleanup on drop.
     /// The guard restores original terminal settings when dropped, even though
@@ -368,7 +364,12 @@ impl InputReader {
             return Ok(InputEvent::Eof);
         }
 
-        let ch = self.buffer[0] as char;
+        let first = self.buffer[0];
+        let ch = if first.is_ascii() {
+            first as char
+        } else {
+            self.read_rest_of_char(first)?
+        };
 
         // Map control characters to events.
         Ok(match ch {
@@ -376,6 +377,34 @@ impl InputReader {
             CTRL_D => InputEvent::CtrlD,
             _ => InputEvent::Char(ch),
         })
+    }
+}
+
+impl InputReader {
+    /// Reads the continuation bytes of the UTF-8 sequence started by `first` and decodes it;
+    /// a byte sequence that is not valid UTF-8 yields U+FFFD.
+    fn read_rest_of_char(&mut self, first: u8) -> Result<char, brush_core::Error> {
+        let len = match first {
+            0xC0..=0xDF => 2,
+            0xE0..=0xEF => 3,
+            0xF0..=0xF7 => 4,
+            _ => 1,
+        };
+
+        let mut bytes = [first, 0, 0, 0];
+        let mut have = 1;
+        while have < len {
+            if self.input.read(&mut self.buffer)? == 0 {
+                break;
+            }
+            bytes[have] = self.buffer[0];
+            have += 1;
+        }
+
+        Ok(std::str::from_utf8(&bytes[..have])
+            .ok()
+            .and_then(|s| s.chars().next())
+            .unwrap_or(char::REPLACEMENT_CHARACTER))
     }
 }
 
